@@ -228,31 +228,58 @@ def run(check):
 
   # ------------------------------------------------------------------ config
   r_cfg = check.rule('R-C20-config', 2, 'buckets built from MAX_CREATES_PER_MINUTE/60 and MAX_UPDATES_PER_SECOND')
+  _config_rule(cx, r_cfg, mod)
+
+
+def _config_rule(cx, r_cfg, mod):
+  """The module body (helpers spliced in, sa/inline.py) is evaluated to shape terms; the two arguments of the
+  TokenBucket(...) call assigned to each bucket global are compared with the setting: capacity = the limit,
+  fill rate = the limit per second (limit / 60 for the per-minute create limit)."""
+  from ..symeval import SymEval, show, alternatives
+  se = SymEval(cx)
+  body = [st for st in mod.tree.body if not isinstance(st, (ast.FunctionDef, ast.AsyncFunctionDef, ast.ClassDef, ast.Import, ast.ImportFrom))]
+  out = []
+  se.run(body, {}, None, lambda c: 'bucket' if dotted(c.func) in ('TokenBucket', 'util.TokenBucket', 'carbon.util.TokenBucket') else None, out)
+  by_call = {id(o[1]): o for o in out}
+
+  def strip(t):
+    while isinstance(t, tuple) and t[0] == 'call' and t[1] == 'float' and len(t) == 3:
+      t = t[2]
+    return t
+
   for name, setting, per in (('CREATE_BUCKET', 'MAX_CREATES_PER_MINUTE', 60), ('UPDATE_BUCKET', 'MAX_UPDATES_PER_SECOND', 1)):
-    vals = [v for v in mod.globals.get(name, []) if isinstance(v, ast.Call)]
+    vals = [v for v in mod.globals.get(name, []) if isinstance(v, ast.Call) and id(v) in by_call]
     if not vals:
       r_cfg.cannot_decide('%s is not built by a TokenBucket(...) call at module level' % name)
       continue
-    call = vals[0]
-    ok = True
-    why = ''
-    # resolve the two arguments through module-level assignments that precede the call
-    argtxt = []
-    for a in call.args[:2]:
-      if isinstance(a, ast.Name) and a.id in mod.globals:
-        cands = [v for v in mod.globals[a.id] if getattr(v, 'lineno', 0) < call.lineno]
-        a = cands[-1] if cands else a
-      argtxt.append(unparse(a).replace(' ', ''))
-    if len(argtxt) < 2 or setting not in argtxt[0] or setting not in argtxt[1]:
-      ok, why = False, 'arguments %s do not derive from settings.%s' % (argtxt, setting)
-    elif per == 60 and '/60' not in argtxt[1]:
-      ok, why = False, 'fill rate `%s` is not the per-minute limit divided by 60' % argtxt[1]
-    elif per == 1 and any(ch in argtxt[1] for ch in '*/'):
-      ok, why = False, 'fill rate `%s` is not the per-second limit itself' % argtxt[1]
-    if ok:
-      r_cfg.ok('%s = TokenBucket(%s)' % (name, ', '.join(argtxt)), '%s:%d' % (mod.relpath, call.lineno))
-    else:
-      r_cfg.violate('%s misconfigured' % name, 'carbon.writer:<module>', None, why, construct='%s = %s' % (name, unparse(call)))
+
+    def is_setting(t):
+      t = strip(t)
+      return isinstance(t, tuple) and t[0] in ('attr', 'field') and t[-1] == setting and 'settings' in show(t)
+
+    for call in vals:
+      o = by_call[id(call)]
+      args = list(o[2])
+      kws = dict(o[3]) if isinstance(o[3], dict) else dict(o[3] or ())
+      cap = args[0] if args else kws.get('capacity')
+      rate = args[1] if len(args) > 1 else kws.get('fill_rate')
+      why = ''
+      if cap is None or rate is None:
+        why = 'TokenBucket is not given a capacity and a fill rate'
+      elif not all(is_setting(t) for t in alternatives(cap)):
+        why = 'the capacity `%s` is not settings.%s' % (show(cap), setting)
+      else:
+        for r in alternatives(rate):
+          r = strip(r)
+          if isinstance(r, tuple) and r[0] == 'binop' and r[1] == 'Div' and is_setting(r[2]) and strip(r[3]) in (('const', per), ('const', float(per))):
+            continue
+          if per == 1 and is_setting(r):
+            continue
+          why = 'the fill rate `%s` is not settings.%s%s' % (show(r), setting, ' / 60 (tokens per second)' if per == 60 else '')
+      if not why:
+        r_cfg.ok('%s = TokenBucket(%s, %s)' % (name, show(cap), show(rate)), '%s:%d' % (mod.relpath, call.lineno))
+      else:
+        r_cfg.violate('%s misconfigured' % name, 'carbon.writer:<module>', None, why, construct='%s = %s' % (name, unparse(call)))
 
 
 def _refill_discipline(check, rule, m, g):
